@@ -116,7 +116,7 @@ class Engine:
         m, c = self.src_class(name)
         if c is None:
             return []
-        return [b for b in frontend.base_names(c) if self.src_class(b)[1] is not None]
+        return [b for b in frontend.base_names(c) if self.src_class(b)[1] is not None or b in self.unit.classes]
 
     def mro(self, name):
         if name not in self._mro:
@@ -362,12 +362,9 @@ class Path:
             return
         if getattr(self.fc, "quiescent", False):
             return          # the contract requires that no other process / thread is active during this call
-        if itf["cls"] in self.eng.mro(self.concrete):
-            selfv = self.env.locals[self.selfname]
-        elif receiver is not None and itf["cls"] in self.eng.mro(receiver.s.cls):
-            selfv = receiver
-        else:
-            return
+        if itf["cls"] not in self.eng.mro(self.concrete):
+            return          # code of another thread class: its own rely is stated in its contract
+        selfv = self.env.locals[self.selfname]
         pre = Env({"self": selfv}, dict(self.env.heap), self.env.alloc, spec=True)
         pre.old = pre
         w = self.ev_spec(itf["when"], pre).t
@@ -735,6 +732,11 @@ class Path:
                 self.exec_block(s.orelse)
             return
         if isinstance(s, ast.Return):
+            rs = self.fc.returns
+            if isinstance(s.value, ast.Tuple) and isinstance(rs, TupS) and len(rs.elems) == len(s.value.elts):
+                # elementwise: empty displays get their sort from the declared result sort
+                vs = [ops.coerce(self.fix_empty(self.ev(e, env), es), es) for e, es in zip(s.value.elts, rs.elems)]
+                raise ReturnSig(V(tup_mk(rs, *[v.t for v in vs]), rs))
             raise ReturnSig(self.ev(s.value, env) if s.value is not None else none_v())
         if isinstance(s, ast.Raise):
             raise PyExc(self.exc_name(s.exc), s.lineno)
@@ -894,8 +896,12 @@ class Path:
             if d[2]:
                 raise Unsupported("code writes a ghost field")
             self.check_guard(ref, d[0], tgt.attr, getattr(tgt, "lineno", 0))
+            for gstmt in getattr(self.fc, "ghost_writes", {}).get(tgt.attr, []):
+                self.exec_ghost(gstmt, extra={"_value": v})
             self.hwrite(ref, tgt.attr, v)
             for gexpr, glabel in self.unit.write_guarantees.get((d[0], tgt.attr), []):
+                if self.fc.qualname in self.unit.guarantee_exempt:
+                    continue        # e.g. the constructor that (re)initialises the shared state while no other thread exists
                 sub = Env({"self": ref}, self.env.heap, self.env.alloc, spec=True, old=self.entry)
                 self.oblige("%s/guarantee@L%d:%s" % (self.fc.qualname, getattr(tgt, "lineno", 0), glabel), self.ev_spec(gexpr, sub).t,
                             "guarantee", getattr(tgt, "lineno", 0))
@@ -1082,6 +1088,18 @@ class Path:
                     nme = t.targets[0].id
                     if nme in env.locals:
                         env.locals[nme] = fresh_v("h_" + nme, env.locals[nme].s)
+        # ghost locals written by call hooks (at_call) of calls inside the loop
+        for c in calls:
+            lbl = c.func.attr if isinstance(c.func, ast.Attribute) else (c.func.id if isinstance(c.func, ast.Name) else None)
+            for when_ in ("before", "after"):
+                for kind_, text_ in getattr(self.fc, "call_hooks", {}).get((when_, lbl), []):
+                    if kind_ != "ghost":
+                        continue
+                    t = ast.parse(text_.strip()).body[0]
+                    if isinstance(t, ast.Assign) and isinstance(t.targets[0], ast.Name) and t.targets[0].id in env.locals:
+                        nme = t.targets[0].id
+                        env.locals[nme] = fresh_v("h_" + nme, env.locals[nme].s)
+                        self.wf(env.locals[nme])
         has_yield = any(isinstance(n, (ast.Yield, ast.YieldFrom)) for st in loopnode.body for n in ast.walk(st))
         if has_yield and env.yielded is not None:
             env.yielded = fresh_v("h_yielded", env.yielded.s)
